@@ -296,7 +296,21 @@ func TestAppend(t *testing.T) {
 					tt.file.Decls = append(tt.file.Decls, &j5sgen.Decl{Oneof: &j5sgen.Oneof{Name: name, Options: []*j5sgen.Field{first(newField(t, 0, true, nil, nil))}}})
 				}
 			case tt.enum != nil:
-				tt.enum.Options = append(tt.enum.Options, &j5sgen.EnumOption{Name: fmt.Sprintf("ADDED_%d", i)})
+				// the new option's name may look like the zero option's (ends in
+				// UNSPECIFIED), sort before every other, or extend an existing name
+				oname := fmt.Sprintf("ADDED_%d", i)
+				switch rapid.IntRange(0, 4).Draw(t, "optionnaming") {
+				case 0:
+					oname = fmt.Sprintf("ADDED_%d_UNSPECIFIED", i)
+					cls = append(cls, "name:option-ends-in-unspecified")
+				case 1:
+					oname = fmt.Sprintf("AAA_%d", i)
+				case 2:
+					if len(tt.enum.Options) > 0 {
+						oname = fmt.Sprintf("%s_%d", tt.enum.Options[0].Name, i)
+					}
+				}
+				tt.enum.Options = append(tt.enum.Options, &j5sgen.EnumOption{Name: oname})
 			default:
 				nf, naming := newField(t, i, strings.Contains(tt.what, "oneof"), *tt.fields, tt.typeNames)
 				*tt.fields = append(*tt.fields, nf)
